@@ -230,7 +230,7 @@ def run(ctx):
     res = Result()
     import tsdate  # noqa: F401
     stats = new_stats()
-    cases = run_cases(ctx, ctx.n(70, 1500), 1, res, stats, nmax=9 if ctx.tier == "quick" else 14)
+    cases = run_cases(ctx, ctx.n(70, 1000), 1, res, stats, nmax=9 if ctx.tier == "quick" else 14)
     res.rule = ("msprime tree sequences (2..9 samples, 1..30 trees) x polytomies x missing (isolated) samples over "
                 "intervals x deleted intervals x non-integer coordinates; B: Lean accumulator at Rat under minimal / observed / "
                 "superset flush sets and Lean mixture moments vs SpansBySamples / mixture_expect_and_var; C: get_spans, "
